@@ -40,7 +40,9 @@ PARTIAL = [
 RULE = ('random mesh (uniform or 2-3 mixed FrontISTR element types, arbitrary ids, storage order asc/desc/shuffled, every '
         'node referenced) x 1-5 nodal and 0-4 elemental variables with component counts 1-9 x value table of arbitrary '
         'finite float64 printed with %.16E x header layout old/2.0 x wrap widths of count and value lines 1-10 x row order '
-        'of the result file (mesh order / ascending / shuffled) x a set of 1-4 step numbers; the model renders the text; '
+        'of the result file (mesh order / ascending / shuffled) x a set of 1-4 step numbers with 1-7 digits (sets straddling '
+        'the digit-count boundaries 9|10 … 99999|100000 in every run) x file stem / directory / rank with and without '
+        'digits; the model renders the text; '
         'a case is non-trivial when the mesh has >= 2 elements and >= 2 variables or wrapped lines; distinct = distinct '
         '(mesh, variables, wraps, layout, steps)')
 ASSUMPTIONS = [
@@ -147,6 +149,40 @@ def order(rnd, ids):
 
 STEP_POOLS = [[1], [0], [7], [1, 2], [2, 10], [9, 10, 11], [1, 2, 3, 4], [99, 100], [5, 50, 500], [3, 20, 100, 1000],
               [0, 1], [10, 9], [12], [100, 20, 3]]
+# step sets that straddle a digit-count boundary (9|10, 99|100, 999|1000, 9999|10000, 99999|100000): numeric order differs
+# there from every text-like order (lexicographic, zero padding to a fixed width, "natural" keys)
+WIDE_POOLS = [[9000, 9999, 10000, 12000], [9999, 10000], [999, 1000], [99999, 100000], [5, 123456], [1000, 20000, 300],
+              [100000, 99999, 7], [9, 10, 100000], [12000, 9000], [250000, 30000, 4000, 500], [99, 100, 1000, 10000],
+              [1234567, 999999, 20], [10000, 2000], [0, 100000, 99]]
+# file stems / directory names / process ranks with digits in them (the step is the trailing number of the file name only)
+STEMS = ['m', 'm', 'job2', 'run_0012', 'a10b9', 'mesh.2', '7', 'case3.v10']
+DIRS = ['c02', 'c02', 'res_2024', 'step10', '0009']
+RANKS = [0, 0, 0, 1, 12, 10000]
+
+
+FIRST_STEPS = [[3], [1, 2], [2, 10], [7], [9, 10, 11], [1], [100, 20, 3], [12], [9000, 9999, 10000, 12000], [999, 1000],
+               [99999, 100000], [10000, 2000]]
+
+
+def rand_steps(rnd):
+    """2-4 distinct step numbers of independent random digit counts 1-6 (boundary values 10^k, 10^k - 1 favoured)"""
+    out = []
+    n = rnd.randint(2, 4)
+    while len(out) < n:
+        nd = rnd.randint(1, 6)
+        s = rnd.choice([10**(nd - 1), 10**nd - 1, rnd.randint(10**(nd - 1), 10**nd - 1)])
+        if s not in out:
+            out.append(s)
+    return out
+
+
+def res_name(case, s):
+    """file name of the result of step s: <stem>.res.<rank>.<step> (older replay files: m.res.0.<step>)"""
+    return f"{case.get('stem', 'm')}.res.{case.get('rank', 0)}.{s}"
+
+
+def msh_name(case):
+    return f"{case.get('stem', 'm')}.msh"
 
 
 def gen_case(rnd, keep_unref=False, steps=None):
@@ -160,8 +196,11 @@ def gen_case(rnd, keep_unref=False, steps=None):
     ev = [[n, rnd.choice(widths)] for n in rand_names(rnd, n_ev, NAMES_E + NAMES_N)]
     n_order, n_kind = order(rnd, nids)
     e_order, e_kind = order(rnd, eids)
-    steps = list(steps or rnd.choice(STEP_POOLS))
+    k = rnd.random()
+    steps = list(steps or (rnd.choice(WIDE_POOLS) if k < .3 else rand_steps(rnd) if k < .45 else rnd.choice(STEP_POOLS)))
     rnd.shuffle(steps)
+    plain = rnd.random() < .5
+    stem, dirname, rank = ('m', 'c02', 0) if plain else (rnd.choice(STEMS), rnd.choice(DIRS), rnd.choice(RANKS))
     sw_n = sum(w for _, w in nv)
     sw_e = sum(w for _, w in ev)
     data = {}
@@ -172,7 +211,8 @@ def gen_case(rnd, keep_unref=False, steps=None):
             'wraps': [rnd.choice([1, 2, 3, 4, 10]), rnd.choice([1, 2, 3, 5, 5, 7, 10]), rnd.choice([1, 2, 10]),
                       rnd.choice([1, 2, 3, 5, 5, 10])],
             'nodal_vars': nv, 'elem_vars': ev, 'nodal_order': n_order, 'elem_order': e_order,
-            'order_kinds': [n_kind, e_kind], 'steps': steps, 'data': data, 'n_unref': m['n_unref']}
+            'order_kinds': [n_kind, e_kind], 'steps': steps, 'data': data, 'n_unref': m['n_unref'],
+            'stem': stem, 'dir': dirname, 'rank': rank}
 
 
 # ------------------------------------------------------------------ protocol
@@ -307,15 +347,16 @@ def expected_tables(case, step):
 
 
 def write_files(ctx, case, texts):
-    d = ctx.tmp / 'c02'
-    if d.exists():
-        import shutil
-        shutil.rmtree(d)
+    import shutil
+    for old in set(DIRS):
+        if (ctx.tmp / old).exists():
+            shutil.rmtree(ctx.tmp / old)
+    d = ctx.tmp / case.get('dir', 'c02')
     d.mkdir()
     m = G.from_json(case['mesh'])
-    (d / 'm.msh').write_text(msh_text(m))
+    (d / msh_name(case)).write_text(msh_text(m))
     for s, text in texts.items():
-        (d / f'm.res.0.{s}').write_text(as_text(text))
+        (d / res_name(case, s)).write_text(as_text(text))
     return d
 
 
@@ -328,7 +369,8 @@ def brief(case):
     return {'mesh': {'types': list(case['mesh']['blocks']), 'n_nodes': len(case['nodal_order']),
                      'n_elems': len(case['elem_order']), 'order': case['mesh'].get('order')},
             'layout': case['layout'], 'wraps': case['wraps'], 'nodal_vars': case['nodal_vars'],
-            'elem_vars': case['elem_vars'], 'row_order': case['order_kinds'], 'steps': case['steps']}
+            'elem_vars': case['elem_vars'], 'row_order': case['order_kinds'], 'steps': case['steps'],
+            'names': [case.get('dir', 'c02'), msh_name(case), res_name(case, '<step>')]}
 
 
 def oracle(case, d, report, check_mesh=True):
@@ -338,7 +380,7 @@ def oracle(case, d, report, check_mesh=True):
     steps = sorted(case['steps'])
     singles = {}
     for s in steps:
-        fd, err = real(FEMData.read_files, 'fistr', [str(d / 'm.msh'), str(d / f'm.res.0.{s}')])
+        fd, err = real(FEMData.read_files, 'fistr', [str(d / msh_name(case)), str(d / res_name(case, s))])
         if err:
             report(f'single-step-read-raises:{lay}', f'read_files of step {s} raises {err}', {'error': err})
             singles[s] = None
@@ -467,9 +509,9 @@ def run_case(ctx, case, cfg_mismatch, stream='main'):
     if not main:
         return
     # 3. model reader vs real reader
-    names = [Path(p).name for p in glob.glob(str(d / 'm.res.*'))]
+    names = [Path(p).name for p in glob.glob(str(d / '*.res.*'))]
     files = [(n, texts[int(n.rsplit('.', 1)[1])]) for n in names]
-    lines = [readdir_line(case, 1, 0, [(f'm.res.0.{s}', texts[s])]) for s in steps]
+    lines = [readdir_line(case, 1, 0, [(res_name(case, s), texts[s])]) for s in steps]
     lines += [readdir_line(case, 1, 0, files), readdir_line(case, 1, 1, files), readdir_line(case, 0, 1, files)]
     reps = [dec_dir(r) for r in ctx.driver.ask_many(lines)]
 
@@ -534,8 +576,9 @@ def run(ctx):
         run_case(ctx, obj['input'], cfg_mismatch)
         ctx.count('corpus')
     for k in range(n_cases):
-        # the first cases make sure the small classes (singleton step sets, 2 vs 10) are present in every run
-        case = gen_case(ctx.rng, steps=[[3], [1, 2], [2, 10], [7], [9, 10, 11], [1], [100, 20, 3], [12]][k] if k < 8 else None)
+        # the first cases make sure the small classes (singleton step sets, 2 vs 10, steps straddling the digit-count
+        # boundaries 999|1000, 9999|10000, 99999|100000) are present in every run
+        case = gen_case(ctx.rng, steps=FIRST_STEPS[k] if k < len(FIRST_STEPS) else None)
         b = brief(case)
         wrapped = (sum(w for _, w in case['nodal_vars']) > case['wraps'][1]
                    or len(case['nodal_vars']) > case['wraps'][0])
@@ -549,6 +592,9 @@ def run(ctx):
         ctx.count('storage-order:' + str(case['mesh'].get('order')))
         ctx.count('row-order nodal/elem:' + '/'.join(case['order_kinds']))
         ctx.count(f"n_steps:{len(case['steps'])}")
+        ctx.count('step digit counts:' + ','.join(str(x) for x in sorted({len(str(x)) for x in case['steps']})))
+        ctx.count('file names: ' + ('m.res.0.<step> in c02/' if (case['stem'], case['dir'], case['rank']) == ('m', 'c02', 0)
+                                    else 'stem / directory / rank with digits'))
         ctx.count(f"n_elem_vars:{len(case['elem_vars'])}")
         ctx.count('value-lines-wrapped:' + str(wrapped))
         run_case(ctx, case, cfg_mismatch)
@@ -578,7 +624,7 @@ def replay(ctx, obj):
     oracle(case, d, lambda sig, what, observed: found.append({'signature': sig, 'what': what, 'observed': observed}))
     out = {'case': brief(case), 'files': sorted(p.name for p in d.iterdir()), 'failures': found, 'fails': bool(found)}
     if ctx.driver is not None:
-        names = [Path(p).name for p in glob.glob(str(d / 'm.res.*'))]
+        names = [Path(p).name for p in glob.glob(str(d / '*.res.*'))]
         files = [(n, texts[int(n.rsplit('.', 1)[1])]) for n in names]
         reps = ctx.driver.ask_many([readdir_line(case, 1, 1, files), readdir_line(case, 0, 1, files)])
         out['model'] = {'Cfg.fixed series': summarize(dec_dir(reps[0])), 'Cfg.upstream series': summarize(dec_dir(reps[1]))}
